@@ -8,7 +8,8 @@ obs (all determined):
   D rc=…, D gsha=…, D pfile …, D ids=…, D afile …, D arows=…, D cfile …, D crows=…     the first run, as for C05
   D jobs L<level>:<ids>|<ids>|…            job log of the first run (hook TOOLBOX_RS_VERIF_JOBLOG), jobs sorted by
                                            smallest id, ids ascending
-  D run <k> <R line> rc=0 p=<sha256> a=<sha256> c=<sha256> j=<sha256 of the canonical job log>      every run
+  D run <k> <R line> rc=0 p=<sha256> j=<sha256 of the canonical job log>      every run
+  F runcsv <k> a=<sha256> c=<sha256>                                         every run (equal across runs: judged)
 Model: the sequential reference `Tbx.Chipper.chipper` once; it predicts the same files and the same job sets for
 EVERY run (that is `Tbx.Props.C06.par_eq_seq`).
 Judge: every run exits 0 and has the hashes of the first run; the first run's files satisfy the C05 Spec
@@ -92,8 +93,9 @@ def handle (c : Case) : CaseOut :=
         let a := strBytesSha (assignmentCsv mo.pid inp.coord)
         let cu := strBytesSha (cutCsv inp.plainEdges mo.pid inp.coord)
         let j := Sha256.hashString ("\n".intercalate jl)
-        let runs := (List.range inp.runs.size).map fun k =>
-          s!"D run {k} {inp.runs.getD k ""} rc=0 p={p} a={a} c={cu} j={j}"
+        let runs := ((List.range inp.runs.size).map fun k =>
+          s!"D run {k} {inp.runs.getD k ""} rc=0 p={p} j={j}") ++ (csvShaLines inp mo.pid).toList ++
+          ((List.range inp.runs.size).map fun k => s!"F runcsv {k} a={a} c={cu}")
         let widest := (mo.queues.map List.length).foldl max 0
         let nontrivial := decide (st.depth ≥ 3) && decide (widest ≥ 4) && decide (inp.runs.size ≥ 10)
         (#["D rc=0", inputShaLine inp] ++ fileLines inp mo.pid ++ (jl.map fun l => "D jobs " ++ l).toArray ++ runs.toArray,
@@ -106,9 +108,12 @@ def handle (c : Case) : CaseOut :=
       if c.impl.contains "HANG" then .fail "a chipper run did not terminate"
       else if rc != some "0" then .fail s!"chipper failed on an in-domain input (rc={rc.getD "?"})"
       else
-        let runs := (c.impl.toList.filter fun l => l.startsWith "D run ").map fieldsOf
+        let csvs := (c.impl.toList.filter fun l => l.startsWith "F runcsv ").map fieldsOf
+        let runs0 := (c.impl.toList.filter fun l => l.startsWith "D run ").map fieldsOf
+        -- attach the CSV hashes of run k to its run line
+        let runs := (List.range runs0.length).map fun k => runs0.getD k [] ++ (csvs.getD k []).drop 3
         let get := fun (ws : List String) (k : String) => (kvOf ws k).getD "?"
-        if runs.length ≠ inp.runs.size then .fail s!"{runs.length} of {inp.runs.size} runs observed"
+        if runs.length ≠ inp.runs.size ∨ csvs.length ≠ inp.runs.size then .fail s!"{runs.length} of {inp.runs.size} runs observed"
         else
           let base := runs.headD []
           let bad := runs.find? fun ws =>
